@@ -103,6 +103,18 @@ func ZZ_C09_caps() {
 		Type: datadoghqv1alpha1.ConditionTypeActive, Status: corev1.ConditionTrue,
 		LastTransitionTime: metav1.NewTime(activeSince), LastUpdateTime: metav1.NewTime(activeSince),
 	}}
+	// the first sync of a replica set in the active role finds no Active condition (or a False one left
+	// by its canary phase): "t is the time since its Active condition last became true" is then zero,
+	// however old the replica set is
+	rs.CreationTimestamp = metav1.NewTime(nondet.Base().Add(-48 * time.Hour))
+	switch nondet.String("activeCondition", "true", "absent", "false") {
+	case "absent":
+		rs.Status.Conditions = nil
+		activeSince = nondet.Base()
+	case "false":
+		rs.Status.Conditions[0].Status = corev1.ConditionFalse
+		activeSince = nondet.Base()
+	}
 	params, _ := zzParams(ds, rs, cats)
 	client := fakeapi.New()
 	now := metav1.NewTime(nondet.Base())
